@@ -45,7 +45,7 @@ from .stats import (
     RTCRemoteOutboundRtpStreamStats,
     RTCStatsReport,
 )
-from .utils import uint16_add, uint16_gt
+from .utils import uint16_add, uint16_gt, uint32_add
 
 logger = logging.getLogger(__name__)
 
@@ -154,10 +154,11 @@ class StreamStatistics:
             self.max_seq = packet.sequence_number
 
             if packet.timestamp != self._last_timestamp and self.packets_received > 1:
-                diff = abs(
-                    (arrival - self._last_arrival)
-                    - (packet.timestamp - self._last_timestamp)
-                )
+                # RTP timestamps wrap around, take their difference modulo 2^32
+                timestamp_diff = uint32_add(packet.timestamp, -self._last_timestamp)
+                if timestamp_diff >= 0x80000000:
+                    timestamp_diff -= 0x100000000
+                diff = abs((arrival - self._last_arrival) - timestamp_diff)
                 self._jitter_q4 += diff - ((self._jitter_q4 + 8) >> 4)
 
             self._last_arrival = arrival
